@@ -1,7 +1,7 @@
 (* ---- Reserve.v (prototype) : NextKeyIter / ReservedEntities prediction, on top of SlotMap.v ---- *)
 From Coq Require Import List NArith Bool Lia PeanoNat.
 Import ListNotations.
-Require Import EV.SlotMap.
+Require Import EV.Base EV.SlotMap.
 Open Scope N_scope.
 
 Section R.
@@ -136,11 +136,11 @@ Arguments inserts {V}. Arguments predict {V}. Arguments next_key_iter {V}. Argum
 Check nki_predicts. Print Assumptions nki_predicts.
 
 (* The defect D6/D2 in the model: a removal between prediction and materialisation breaks the promise. *)
-Definition m0 : smap nat := empty.
-Definition run3 := (* three inserts, then: predict one key, remove key (1,1), insert one *)
+Definition m0 : smap nat := sm_empty.
+Definition run3 := (* three inserts, then: predict one key, sm_remove key (1,1), insert one *)
   match inserts 3%nat (fun _ => 0%nat) m0 with
   | Some (_, m) =>
-      match predict 1%nat (next_key_iter m) m, remove (1,1) m with
+      match predict 1%nat (next_key_iter m) m, sm_remove (1,1) m with
       | Some (ks, _), Some (_, m') => match inserts 1%nat (fun _ => 0%nat) m' with Some (ks', _) => Some (ks, ks') | None => None end
       | _, _ => None
       end
